@@ -802,6 +802,12 @@ func LookupTerminfo(name string) (*Terminfo, error) {
 		t.SetFgRGB == "" &&
 		t.SetBgRGB == "" {
 
+		// Amend a copy: t is (or was derived from) the registered
+		// entry, which is shared by every name that maps to it and
+		// must not change as a side effect of a lookup.
+		c := *t
+		t = &c
+
 		// Supply vanilla ISO 8613-6:1994 24-bit color sequences.
 		t.SetFgRGB = "\x1b[38;2;%p1%d;%p2%d;%p3%dm"
 		t.SetBgRGB = "\x1b[48;2;%p1%d;%p2%d;%p3%dm"
@@ -810,6 +816,9 @@ func LookupTerminfo(name string) (*Terminfo, error) {
 	}
 
 	if add256color {
+		// Likewise, fabricate the 256 color variant in a copy.
+		c := *t
+		t = &c
 		t.Colors = 256
 		t.SetFg = "\x1b[%?%p1%{8}%<%t3%p1%d%e%p1%{16}%<%t9%p1%{8}%-%d%e38;5;%p1%d%;m"
 		t.SetBg = "\x1b[%?%p1%{8}%<%t4%p1%d%e%p1%{16}%<%t10%p1%{8}%-%d%e48;5;%p1%d%;m"
